@@ -330,13 +330,9 @@ def check_case(case, ctx):
                     f"{where}: features_as_dataframe[{ft.value}] has columns {list(frame.columns)}",
                 )
 
-    if not huge:
-        # (with durations beyond float32 the matrix of absolute earliest start
-        # times is only exact once it has been recomputed by a dispatch, and
-        # the statement speaks of the features after every dispatch)
-        check_all("after construction")
-    else:
-        ctx.label("huge_durations_checked_after_dispatches_only")
+    # (before repair ae5c979 the constructor used float32 cumulative sums and
+    # this state was exempted for durations beyond 2**24)
+    check_all("after construction")
     consumers = case.get("consumers", 0)
 
     def read_only_consumers():
@@ -396,9 +392,7 @@ def check_case(case, ctx):
                 drv.dispatcher, drv.instance, drv.model = clone, clone.instance, m
                 disturb(original, original_model, inst, 3)
                 ctx.label("forked")
-                if not (huge and episode == 0 and m.count() == 0):
-                    # (same exemption as "after construction" above)
-                    check_all(f"deep copy taken after {m.count()} dispatches, the original having gone on")
+                check_all(f"deep copy taken after {m.count()} dispatches, the original having gone on")
             else:  # (not reached: every observer of the case is subscribed)
                 m = original_model
         read_only_consumers()
